@@ -202,7 +202,14 @@ def emit():
         m.persist_to_json_file(fn)
         with open(fn, 'rb') as fh:
             data = json.loads(fh.read().decode())
-    persists_ast = data['cells']['Sheet1!B1']['formula'].get('ast') is not None
+
+    def has_ast(j):
+        if isinstance(j, dict):
+            return any((k == 'ast' and v is not None) or has_ast(v) for k, v in j.items())
+        if isinstance(j, list):
+            return any(has_ast(v) for v in j)
+        return False
+    persists_ast = has_ast(data)
     if m.cells['Sheet1!B1'].formula.ast is None:
         raise ValueError('probe: persist_to_json_file removed the AST from the live model')
 
